@@ -20,7 +20,10 @@ import impl
 import lib
 from lib import coq_bool, coq_list, coq_nat
 
-COQ_TARGETS = ["theories/Proofs/CtxLemmas.vo", "theories/Model/CtxEq.vo"]
+COQ_TARGETS = ["theories/Proofs/CtxLemmas.vo", "theories/Model/CtxEq.vo", "theories/Props/C16Bridge.vo"]
+# notes/bridge.md, "Context bridge": the mechanism model's TypeContext (Model/Build.v: getitem) is what this model says
+BRIDGE_THEOREMS = ["C16B_key_laws", "C16B_getitem_is_spec_lookup", "C16B_item", "C16B_get", "C16B_getitem_iff",
+                   "C16B_routes_any_history", "C16B_stale_memo"]
 MOD = "verif_c16_fam"
 NBASE = 3
 CORE_FORMS = ["B", "NT", "TA", "SA", "FI", "CV", "FR"]          # the family of the quantifier (+ ClassVar)
@@ -220,6 +223,7 @@ def tables() -> Tables:
 
 
 def prove(run: lib.Run):
+    run.check_props("Props/C16Bridge.v", BRIDGE_THEOREMS)
     fam, tab = family(), tables()
     run.oblige("reflect:key family has distinct ==-classes, closes under unwrap/forwardref, == is a congruence",
                not tab.problems, "; ".join(tab.problems[:4]))
